@@ -100,6 +100,9 @@ class Contracts:
             tokens = lex(pipeline.lexer_for(language), text, False)
             ms = self.Scanner.scan_file(tokens, Languages.by_name[language])
             if ms:
+                if len(ctx.samples) < 3 and cls != "canonical" and len(text) < 400:
+                    ctx.sample({"language": language, "class": cls, "input": text,
+                                "measurements": pipeline.measurements_as_lists(ms)[:3], "invariants": "all held"})
                 ctx.count("cases.with_measurements")
                 ctx.count("measurements.checked", len(ms))
                 ctx.distinct([language, text])
@@ -172,10 +175,6 @@ def run(shard, ctx):
                     data = "// caf\xe9 \xfc\n".encode("latin-1") + data[: rng.randrange(200, 4000)]
                 files[f"d{k % 2}/sub/f{k}{ext}"] = data
             c.run_tree(lang, files, "tree")
-        ctx.sample({"language": lang, "example_invariants": ["1 <= start.line <= end.line <= n_lines", "start at a code token",
-                                                              "end just past a code token", "name is a Name token in the span",
-                                                              "1 <= length <= code-bearing lines of span", "strictly increasing starts",
-                                                              "file loc = sum(lengths)"]})
 
 
 def replay(case, ctx):
